@@ -392,6 +392,37 @@ impl AlgoContext {
     }
 }
 
+/// Read-only views of the population for an external verification harness.
+/// Compiled only with `RUSTFLAGS="--cfg cambrian_verif"`.
+#[cfg(cambrian_verif)]
+impl AlgoContext {
+    /// (id, ordering-key objective, state kind: 0 pending / 1 ready / 2 final, samples or final value) in population order
+    pub fn verif_population(&self) -> Vec<(usize, f64, u8, Vec<f64>)> {
+        self.individuals
+            .iter()
+            .map(|(key, ctx)| {
+                let (kind, vals) = ctx.verif_state();
+                (ctx.id, key.obj_func_val.get(), kind, vals)
+            })
+            .collect()
+    }
+
+    pub fn verif_next_id(&self) -> usize {
+        self.next_id
+    }
+}
+
+#[cfg(cambrian_verif)]
+impl IndContext {
+    pub fn verif_state(&self) -> (u8, Vec<f64>) {
+        match &self.state {
+            IndState::PendingEval(vals) => (0, vals.iter().map(|v| v.get()).collect()),
+            IndState::Ready(vals) => (1, vals.iter().map(|v| v.get()).collect()),
+            IndState::Final(val) => (2, vec![val.get()]),
+        }
+    }
+}
+
 fn wrap(
     unwrapped: (CrossoverParams, MutationParams),
     source: MetaParamsSource,
